@@ -183,7 +183,11 @@ def exec_stmt(ctx, st, env, cond):
             name = exc.id
         return [Outcome("raise", cond, ("str", name), env, st)]
     if isinstance(st, ast.If):
-        c = ev(ctx, st.test, env)
+        c = fold_bool(ev(ctx, st.test, env))
+        if c == ("bool", True):
+            return exec_block(ctx, st.body, env, cond)
+        if c == ("bool", False):
+            return exec_block(ctx, st.orelse, env, cond) if st.orelse else [Outcome("fall", cond, None, env)]
         env_t, env_f = dict(env), dict(env)
         if getattr(ctx, "refine_guards", True):
             refine(ctx, st.test, env_t, True)
@@ -256,6 +260,44 @@ def exec_stmt(ctx, st, env, cond):
     if isinstance(st, ast.With):
         return exec_block(ctx, st.body, env, cond)
     raise AnalysisError("symx: unsupported statement %s" % type(st).__name__)
+
+
+def fold_bool(c):
+    """constant folding of conditions whose operands are literals (used when a
+    function is specialised for a literal argument, e.g. target="new")"""
+    h = c[0]
+    if h == "cmp":
+        a, b = c[2], c[3]
+        if a[0] in ("str", "num") and b[0] == a[0]:
+            x, y = a[1], b[1]
+            try:
+                r = {"Eq": x == y, "NotEq": x != y, "Lt": x < y, "LtE": x <= y, "Gt": x > y, "GtE": x >= y}.get(c[1])
+            except TypeError:
+                r = None
+            if r is not None:
+                return ("bool", bool(r))
+        return c
+    if h == "not":
+        x = fold_bool(c[1])
+        return ("bool", not x[1]) if x[0] == "bool" else ("not", x)
+    if h in ("and", "or"):
+        parts = [fold_bool(x) for x in c[1:]]
+        if h == "and":
+            if any(x == ("bool", False) for x in parts):
+                return ("bool", False)
+            parts = [x for x in parts if x != ("bool", True)]
+            if not parts:
+                return ("bool", True)
+        else:
+            if any(x == ("bool", True) for x in parts):
+                return ("bool", True)
+            parts = [x for x in parts if x != ("bool", False)]
+            if not parts:
+                return ("bool", False)
+        return parts[0] if len(parts) == 1 else (h,) + tuple(parts)
+    if h == "call" and c[1] == "isinstance" and len(c) == 4 and c[2][0] == "str" and c[3] == ("sym", "str"):
+        return ("bool", True)
+    return c
 
 
 def merge_phi(c, a, b):
@@ -450,7 +492,11 @@ def ev(ctx, node, env):
             left = r
         return parts[0] if len(parts) == 1 else ("and",) + tuple(parts)
     if isinstance(node, ast.IfExp):
-        c = ev(ctx, node.test, env)
+        c = fold_bool(ev(ctx, node.test, env))
+        if c == ("bool", True):
+            return ev(ctx, node.body, env)
+        if c == ("bool", False):
+            return ev(ctx, node.orelse, env)
         return merge_phi(c, ev(ctx, node.body, env), ev(ctx, node.orelse, env))
     if isinstance(node, ast.Tuple):
         return ("tuple",) + tuple(ev(ctx, e, env) for e in node.elts)
@@ -480,6 +526,11 @@ def ev(ctx, node, env):
             k = "self." + node.attr
             if k in env:
                 return env[k]
+            sv = env.get("self")
+            if sv is not None and sv[0] == "epoch" and node.attr == "_jde":
+                return sv[1]
+            if sv is not None and sv[0] == "angle" and node.attr == "_deg":
+                return T.call("red", sv[1])
             return ("attr", T.sym("self"), node.attr)
         base = ev(ctx, node.value, env)
         if base[0] == "angle" and node.attr == "_deg":
@@ -660,6 +711,8 @@ def ev_call(ctx, node, env):
         name = f.id
         if name in env and env[name][0] == "closure":
             return inline_closure(ctx, ctx.closures[env[name][1]], args, kws, env)
+        if name in env and env[name][0] in ("angle", "epoch"):
+            return call_value(env[name], args)
         if name == "Angle":
             return make_angle(args, kws)
         if name == "Epoch":
@@ -710,13 +763,13 @@ def ev_call(ctx, node, env):
                 return to_positive(recv)
             if meth == "get_ra":
                 return T.div(T.call("red", recv[1]), T.num(15))
-            return T.call("Angle." + meth, recv, *args)
+            return T.call("Angle.Angle." + meth, recv, *args)
         if recv[0] == "epoch":
             if meth in ("jde",):
                 return recv[1]
             if meth == "mjd":
                 return T.sub(recv[1], T.num(Fraction("2400000.5")))
-            return T.call("Epoch." + meth, recv, *args)
+            return T.call("Epoch.Epoch." + meth, recv, *args)
         if meth == "rad" and not args:
             return T.call("rad", recv)
         if meth == "jde" and not args:
